@@ -8,6 +8,7 @@ import (
 	"os"
 	"os/exec"
 	"regexp"
+	"runtime"
 	"sort"
 	"strings"
 	"sync"
@@ -61,6 +62,15 @@ func raceBackendOps(be Backend, km *KeyMap, g int, ttlWrites bool) map[string]fu
 }
 
 var raceBackendNames = []string{"Read", "Write", "Delete", "Len", "ExpireAll", "DeleteAll", "Walk", "Dump", "Restore", "Janitor"}
+
+type yieldDeleter struct{ inner cache.Deleter }
+
+func (y yieldDeleter) Delete(ctx context.Context, key []byte) error {
+	runtime.Gosched()
+	time.Sleep(20 * time.Microsecond)
+
+	return y.inner.Delete(ctx, key)
+}
 
 func runPair(a, b func(i int), iters int) {
 	var wg sync.WaitGroup
@@ -192,6 +202,24 @@ func TestRaceChild(t *testing.T) {
 				mark(an + "|" + bn)
 				runPair(ops(1)[an], ops(2)[bn], iters)
 			}
+		}
+
+		// one cache name, one label, several keys per list, deleters that yield: an invalidation is still walking the
+		// keys it has cut out while the same label is being added again
+		{
+			idx := cache.NewInvalidationIndex()
+			be := NewBackend("ShardedMap", cache.Config{})
+			idx.AddCache("n0", yieldDeleter{be.Raw().(cache.Deleter)})
+
+			mark("AddLabelsSameLabel|InvalidateWalking")
+			runPair(func(i int) { idx.AddLabels("n0", km.ByModel[fmt.Sprintf("k%d", 1+i%4)], "a") },
+				func(i int) {
+					for j := 1; j <= 4; j++ {
+						idx.AddLabels("n0", km.ByModel[fmt.Sprintf("k%d", j)], "a")
+					}
+
+					_, _ = idx.InvalidateByLabels(context.Background(), "a")
+				}, iters*4)
 		}
 
 		// embedded index of a backend next to regular traffic
